@@ -28,6 +28,11 @@ CHECKS = {
             "Every enumerated damaged file is decoded in-process; outcome must be a report (exception / non-zero exit / MAX's removal) or a file that is complete w.r.t. its own header. Quick uses a 12-value alphabet and a stated subset of prefixes for the 16 kB raw VEF; thorough uses all 256 values and all prefixes.",
             "An escaping exception counts as 'reported'. Known genuine defects are matched by input-side features computed by reference stream analysers.",
             "DESIGN.md §2 C19"),
+    "C15": ("model_checking",
+            "bounded-exhaustive input exploration: every 1-token (2 in thorough) mutation of every catalogue statement, every statement in every control context, literal spellings x contexts, all short strings over a hostile alphabet, option cube, config maps, size ladders and CLI names, all run through the real convert()/start()",
+            "Each enumerated input is converted by the real code under a 30 s alarm; the outcome must be text or one of the documented refusal exceptions; acceptance must not depend on options or the procedure name.",
+            "Documented refusals = parsimonious ParseError, compiler.ParseError, LineNumberTooLargeException, pydantic ValidationError; VisitationError counts as internal.",
+            "DESIGN.md §2 C15"),
 }
 
 PENDING_REASON = "check not built yet in this revision (work in progress; will be claimed when its explorer exists)"
